@@ -9,6 +9,7 @@ import glob
 import itertools
 import json
 import os
+import random
 import struct
 
 from vlib.core import C, Raw, coq, known_for
@@ -447,6 +448,523 @@ def exhaustive_cases(max_len, max_len_wrapped):
                            "config": "exhaustive", "main": main}
 
 
+# ------------------------------------------------------ adapter configurations
+# A TemporalFactStoreAdapter (unpinned, or pinned at an instant) over a temporal
+# store that is ALSO written directly with (atom, interval) pairs. Case format:
+# the standard one plus "tstores" ([{"k":"tstore"} | {"k":"ttee","base":j}]),
+# store kind {"k":"tadapter","ts":j,"at":t|None} and the op
+# {"op":"tadd","ts":j,"a":atom,"lo":lo|None,"hi":hi|None}. Verdict: Coq
+# Run.C06.judge_a (set machine over the views derived from the pairs).
+A_LEAF_KINDS = BASE_KINDS + ("tadapter",)
+A_LAYOUTS = ["views", "interp", "interp-ttee", "tee", "write-adapter", "two-reads"]
+
+
+def covers(lo, hi, t):
+    return (lo is None or lo <= t) and (hi is None or t <= hi)
+
+
+class ASim:
+    """Generator-side bookkeeping for adapter cases (same role as Sim: keeps the
+    histories inside the documented domain and computes the marks `ghost` /
+    `strict`; it does not decide any verdict)."""
+
+    def __init__(self, tstores, stores, atoms):
+        self.tstores, self.stores, self.atoms = tstores, stores, atoms
+        n = len(stores)
+        self.sets = [set() for _ in range(n)]
+        self.ever = [set() for _ in range(n)]
+        self.own = [set() for _ in tstores]           # (atom, lo, hi) written to this temporal store itself
+        self.leaves = [self._leaves(i) for i in range(n)]
+        self.wrappers = [i for i in range(n) if stores[i]["k"] in ("merged", "tee", "conc")]
+
+    # ---- temporal stores
+    def chain(self, j):
+        d = self.tstores[j]
+        return [j] + (self.chain(d["base"]) if d["k"] == "ttee" else [])
+
+    def pairs(self, j):
+        s = set()
+        for k in self.chain(j):
+            s |= self.own[k]
+        return s
+
+    def npairs(self, j):        # TemporalStore.EstimateFactCount: pairs, a teeing temporal store sums
+        return sum(len(self.own[k]) for k in self.chain(j))
+
+    def view(self, l):
+        d = self.stores[l]
+        return {a for (a, lo, hi) in self.pairs(d["ts"]) if d.get("at") is None or covers(lo, hi, d["at"])}
+
+    # ---- slots
+    def _leaves(self, i):
+        d = self.stores[i]
+        if d["k"] in A_LEAF_KINDS:
+            return {i}
+        if d["k"] == "tee":
+            return {i} | self._leaves(d["base"])
+        if d["k"] == "conc":
+            return self._leaves(d["base"])
+        s = self._leaves(d["w"])
+        for r in d["reads"]:
+            s |= self._leaves(r)
+        return s
+
+    def leaf(self, i):
+        d = self.stores[i]
+        if d["k"] in A_LEAF_KINDS or d["k"] == "tee":
+            return i
+        return self.leaf(d["base"] if d["k"] == "conc" else d["w"])
+
+    def is_adapter(self, l):
+        return self.stores[l]["k"] == "tadapter"
+
+    def leafset(self, l):
+        return self.view(l) if self.is_adapter(l) else self.sets[l]
+
+    def vis(self, i):
+        s = set()
+        for l in self.leaves[i]:
+            s |= self.leafset(l)
+        return s
+
+    def tchains(self, i):
+        s = set()
+        for l in self.leaves[i]:
+            if self.is_adapter(l):
+                s |= set(self.chain(self.stores[l]["ts"]))
+        return s
+
+    def pred(self, a):
+        return (self.atoms[a]["sym"], len(self.atoms[a]["args"]))
+
+    def add_target(self, i, a):
+        """mirror of Run.C06.add_target"""
+        d = self.stores[i]
+        if d["k"] in A_LEAF_KINDS:
+            return i
+        if d["k"] == "conc":
+            return self.add_target(d["base"], a)
+        if d["k"] == "merged":
+            return None if a in self.vis(i) else self.add_target(d["w"], a)
+        return None if a in self.vis(d["base"]) else i
+
+    def disjoint(self):
+        """the components of every wrapper are pairwise disjoint (documented requirement of the wrappers)"""
+        return all(sum(len(self.leafset(l)) for l in self.leaves[w]) == len(self.vis(w)) for w in self.wrappers)
+
+    def _gain(self, l, news):
+        if self.is_adapter(l):
+            for a in news:
+                self.own[self.stores[l]["ts"]].add((a, None, None))
+        else:
+            for a in news:
+                self.sets[l].add(a)
+                if len(self.atoms[a]["args"]) > 0:
+                    self.ever[l].add(self.pred(a))
+
+    def listed(self, i):
+        res = set()
+        for l in self.leaves[i]:
+            if self.is_adapter(l):     # TemporalStore.ListPredicates: every predicate with a stored pair, whatever the instant
+                res |= {self.pred(a) for (a, _, _) in self.pairs(self.stores[l]["ts"])}
+                continue
+            kind = "array" if self.stores[l]["k"] == "tee" else self.stores[l]["k"]
+            for a in self.sets[l]:
+                if kind in ("simple", "temporal") or len(self.atoms[a]["args"]) == 0:
+                    res.add(self.pred(a))
+            if kind not in ("simple", "temporal"):
+                res |= self.ever[l]
+        return res
+
+    def structurally_ok(self, o):
+        k = o["op"]
+        if k == "remove":
+            l = self.leaf(o["s"])
+            if self.is_adapter(l) or self.stores[l]["k"] == "temporal":
+                return False
+            return o["a"] in self.sets[l] or o["a"] not in self.vis(o["s"])
+        if k == "merge":
+            i, j = o["s"], o["from"]
+            if j == i or (self.leaves[i] & self.leaves[j]):
+                return False
+            # an adapter that merges from a view of its own temporal store would write the maps it iterates
+            if self.tchains(i) & self.tchains(j):
+                return False
+        return True
+
+    def mark(self, o):
+        """marks computed in the state before the operation"""
+        k = o["op"]
+        if k == "add":
+            t = self.add_target(o["s"], o["a"])
+            o["strict"] = True
+            if t is not None and self.is_adapter(t):
+                # Adapter.Add answers "the eternal interval is new in the written temporal store"
+                ts = self.stores[t]["ts"]
+                o["strict"] = (o["a"] not in self.view(t)) or ((o["a"], None, None) in self.own[ts])
+        elif k == "count":
+            o["strict"] = all(self.npairs(self.stores[l]["ts"]) == len(self.view(l))
+                              for l in self.leaves[o["s"]] if self.is_adapter(l))
+        elif k == "preds":
+            o["ghost"] = self.listed(o["s"]) != set(self.pred(a) for a in self.vis(o["s"]))
+        elif k == "get":
+            # measured for the evidence: does this query meet an atom with >= 2 intervals in (the pinned view of) an adapter?
+            multi = pinned_multi = False
+            for l in self.leaves[o["s"]]:
+                if not self.is_adapter(l):
+                    continue
+                at = self.stores[l].get("at")
+                cnt = {}
+                for (a, lo, hi) in self.pairs(self.stores[l]["ts"]):
+                    if at is None or covers(lo, hi, at):
+                        cnt[a] = cnt.get(a, 0) + 1
+                for a, c in cnt.items():
+                    at_ = self.atoms[a]
+                    if c >= 2 and at_["sym"] == o["sym"] and len(at_["args"]) == len(o["args"]) and \
+                            all(x is None or x == y for x, y in zip(o["args"], at_["args"])):
+                        multi = True
+                        pinned_multi = pinned_multi or at is not None
+            o["multi"] = "pinned" if pinned_multi else ("unpinned" if multi else "")
+
+    def apply(self, o):
+        self.mark(o)
+        k = o["op"]
+        if k == "tadd":
+            if o["lo"] is None or o["hi"] is None or o["lo"] <= o["hi"]:
+                self.own[o["ts"]].add((o["a"], o["lo"], o["hi"]))
+        elif k == "add":
+            t = self.add_target(o["s"], o["a"])
+            if t is not None:
+                self._gain(t, [o["a"]])
+        elif k == "remove":
+            self.sets[self.leaf(o["s"])].discard(o["a"])
+        elif k == "merge":
+            self._gain(self.leaf(o["s"]), sorted(self.vis(o["from"])))
+
+    def try_apply(self, o):
+        """apply o if it keeps the history inside the domain; returns whether it did"""
+        if not self.structurally_ok(o):
+            return False
+        if o["op"] not in ("tadd", "add", "merge"):
+            self.apply(o)
+            return True
+        snap = ([set(x) for x in self.sets], [set(x) for x in self.ever], [set(x) for x in self.own])
+        self.apply(o)
+        if self.disjoint():
+            return True
+        self.sets, self.ever, self.own = snap
+        for key in ("strict", "ghost", "multi"):
+            o.pop(key, None)
+        return False
+
+
+def gen_adapter_stores(rng, layout, instants):
+    """(tstores, stores, main). `instants`: candidates for pinned instants."""
+    bk = lambda: rng.choice(["simple", "indexed", "multi", "array"])
+    at = lambda: rng.choice(instants)
+    maybe_at = lambda: rng.choice(instants + [None])
+    ad = lambda ts, t: {"k": "tadapter", "ts": ts, "at": t}
+    if layout == "views":          # several views of one temporal store, no wrapper
+        tstores = [{"k": "tstore"}]
+        stores = [ad(0, None), ad(0, at()), ad(0, at()), {"k": bk()}]
+        main = rng.randrange(3)
+    elif layout == "interp":       # interpreter.updateCombinedStore: merged([adapter], simple / teeing store)
+        tstores = [{"k": "tstore"}]
+        stores = [ad(0, maybe_at()), {"k": "simple"}, {"k": "tee", "base": 1},
+                  {"k": "merged", "reads": [0], "w": 2}, {"k": bk()}, ad(0, maybe_at())]
+        main = 3
+    elif layout == "interp-ttee":  # after a load: the temporal store is a TeeingTemporalStore over the old one
+        tstores = [{"k": "tstore"}, {"k": "ttee", "base": 0}]
+        stores = [ad(1, maybe_at()), {"k": "simple"}, {"k": "tee", "base": 1},
+                  {"k": "merged", "reads": [0], "w": 2}, ad(0, maybe_at()), {"k": bk()}]
+        main = rng.choice([3, 3, 0])
+    elif layout == "tee":          # teeing store(s) over an adapter
+        tstores = [{"k": "tstore"}]
+        stores = [ad(0, maybe_at()), {"k": "tee", "base": 0}]
+        if rng.random() < 0.4:
+            stores.append({"k": "tee", "base": 1})
+        main = len(stores) - 1
+        stores += [{"k": bk()}, ad(0, maybe_at())]
+    elif layout == "write-adapter":   # the adapter as write store of a merged store
+        tstores = [{"k": "tstore"}]
+        stores = [{"k": bk()}, ad(0, maybe_at()), {"k": "merged", "reads": [0], "w": 1}, {"k": bk()}]
+        main = 2
+    elif layout == "two-reads":    # two adapters over different temporal stores as read stores
+        tstores = [{"k": "tstore"}, {"k": "tstore"}]
+        stores = [ad(0, at()), ad(1, maybe_at()), {"k": bk()}, {"k": "merged", "reads": [0, 1], "w": 2}, {"k": bk()}]
+        main = 3
+    else:
+        raise ValueError(layout)
+    return tstores, stores, main
+
+
+def gen_interval(rng, existing, instants, base):
+    """(lo, hi, class). Classes relative to a pinned instant t and to the intervals the atom already has."""
+    r = rng.random()
+    bounded = [(lo, hi) for (lo, hi) in existing if lo is not None and hi is not None]
+    if r < 0.08:
+        return None, None, "eternal"
+    if r < 0.45 and bounded:
+        lo, hi = rng.choice(bounded)
+        m = rng.choice(["same", "nested", "overlap-right", "overlap-left", "touch-shared-end", "touch-adjacent", "disjoint", "enclosing"])
+        d, e = rng.randint(1, 4), rng.randint(0, 3)
+        nlo = rng.randint(lo, hi)
+        iv = {"same": (lo, hi), "nested": (nlo, rng.randint(nlo, hi)),
+              "overlap-right": (lo + min(e, hi - lo), hi + d), "overlap-left": (lo - d, hi - min(e, hi - lo)),
+              "touch-shared-end": (hi, hi + d), "touch-adjacent": (hi + 1, hi + 1 + d),
+              "disjoint": (hi + 2 + e, hi + 2 + e + d), "enclosing": (lo - d, hi + d)}[m]
+        return iv[0], iv[1], m
+    if r < 0.9:
+        t = rng.choice(instants)
+        d, e = rng.randint(1, 5), rng.randint(1, 5)
+        m = rng.choice(["around", "starts-at", "ends-at", "point", "just-after", "just-before",
+                        "until", "from", "until-before", "from-after"])
+        iv = {"around": (t - d, t + e), "starts-at": (t, t + d), "ends-at": (t - d, t), "point": (t, t),
+              "just-after": (t + 1, t + 1 + d), "just-before": (t - 1 - d, t - 1),
+              "until": (None, t + rng.randint(0, 2)), "from": (t - rng.randint(0, 2), None),
+              "until-before": (None, t - 1), "from-after": (t + 1, None)}[m]
+        return iv[0], iv[1], m
+    if r < 0.94:
+        lo = base + rng.randint(0, 30)
+        return lo, lo - rng.randint(1, 3), "invalid"
+    lo = base + rng.randint(-5, 30)
+    return lo, lo + rng.randint(0, 12), "random"
+
+
+def gen_adapter_history(rng, layout, consts, atoms, big):
+    base = rng.choice([0, 0, -40, 1000000000, 1700000000000000000])
+    instants = sorted(rng.sample([base + x for x in (3, 7, 10, 14, 20)], rng.randint(1, 3)))
+    tstores, stores, main = gen_adapter_stores(rng, layout, instants)
+    pinned = [d["at"] for d in stores if d["k"] == "tadapter" and d["at"] is not None] or instants
+    sim = ASim(tstores, stores, atoms)
+    n = rng.randint(4, 44 if big else 20)
+    ops, nslots = [], len(stores)
+    focus = rng.sample(range(len(atoms)), min(len(atoms), rng.randint(2, 5)))
+    adapters = [i for i, d in enumerate(stores) if d["k"] == "tadapter"]
+
+    def pick_atom():
+        return rng.choice(focus) if rng.random() < 0.75 else rng.randrange(len(atoms))
+    tries = 0
+    while len(ops) < n and tries < 500:
+        tries += 1
+        r = rng.random()
+        if r < 0.3:
+            ts, a = rng.randrange(len(tstores)), pick_atom()
+            existing = [(lo, hi) for (b, lo, hi) in sim.pairs(ts) if b == a]
+            lo, hi, cls = gen_interval(rng, existing, pinned, base)
+            o = {"op": "tadd", "ts": ts, "a": a, "lo": lo, "hi": hi, "cls": cls}
+        else:
+            q = rng.random()
+            s = main if q < 0.5 else (rng.choice(adapters) if q < 0.8 else rng.randrange(nslots))
+            if r < 0.44:
+                o = {"s": s, "op": "add", "a": pick_atom()}
+            elif r < 0.5:
+                o = {"s": s, "op": "remove", "a": pick_atom()}
+            elif r < 0.62:
+                o = {"s": s, "op": "contains", "a": pick_atom()}
+            elif r < 0.84:
+                pat = gen_pattern(rng, atoms, len(consts))
+                o = {"s": s, "op": "get", "sym": pat["sym"], "args": pat["args"]}
+            elif r < 0.89:
+                o = {"s": s, "op": "preds"}
+            elif r < 0.94:
+                o = {"s": s, "op": "count"}
+            else:
+                o = {"s": s, "op": "merge", "from": rng.randrange(nslots)}
+        if sim.try_apply(o):
+            ops.append(o)
+    # closing observations: every adapter and the main slot, every predicate, every focus atom
+    tail = []
+    for s in sorted(set(adapters + [main])):
+        tail += [{"s": s, "op": "count"}, {"s": s, "op": "preds"}]
+        for sym, ar in sorted(set((a["sym"], len(a["args"])) for a in atoms)):
+            tail.append({"s": s, "op": "get", "sym": sym, "args": [None] * ar})
+        tail += [{"s": s, "op": "contains", "a": a} for a in focus]
+    for o in tail:
+        sim.try_apply(o)
+        ops.append(o)
+    return {"consts": consts, "atoms": atoms, "tstores": tstores, "stores": stores, "ops": ops,
+            "config": "adapter-" + layout, "main": main}
+
+
+A_MARKS = ("ghost", "strict", "multi", "cls")
+
+
+def a_go_payload(case):
+    return {"consts": case["consts"], "atoms": case["atoms"], "tstores": case["tstores"], "stores": case["stores"],
+            "ops": [{k: v for k, v in o.items() if k not in A_MARKS} for o in case["ops"]]}
+
+
+def a_cq_def(d):
+    if d["k"] in A_LEAF_KINDS:
+        return C("DBase", Raw("KSimple"))     # the set machine does not look at the kind
+    return cq_def(d)
+
+
+def zq(x):
+    """option Z; large positive numbers in 16-bit limbs like the hashes"""
+    return None if x is None else C("Some", hz(x) if x >= 0 else x)
+
+
+def a_cq_case(case, res):
+    hist = []
+    for o, r in zip(case["ops"], res):
+        if o["op"] == "tadd":
+            hist.append(C("ATAdd", o["ts"], cq_atom(case, o["a"]), (zq(o["lo"]), zq(o["hi"]))))
+        else:
+            hist.append(C("AStd", o["s"], cq_op(case, o, r)[1], bool(o.get("strict", True))))
+    views = [(i, (d["ts"], zq(d.get("at")))) for i, d in enumerate(case["stores"]) if d["k"] == "tadapter"]
+    tdefs = [Raw("TPlain") if d["k"] == "tstore" else C("TTee", d["base"]) for d in case["tstores"]]
+    return coq(C("amk", [a_cq_def(d) for d in case["stores"]], tdefs, views, hist))
+
+
+def a_results_wellformed(case, out):
+    for k, (o, r) in enumerate(zip(case["ops"], out["res"])):
+        if o["op"] == "get" and any(not isinstance(x, int) for x in r):
+            return k, "GetFacts yielded an atom that was never given to the store: %s" % r
+        if o["op"] == "remove" and not isinstance(r, bool):
+            return k, "Remove unsupported on this slot"
+        if o["op"] == "tadd":
+            valid = o["lo"] is None or o["hi"] is None or o["lo"] <= o["hi"]
+            if (r == "err") == valid:
+                return k, "TemporalStore.Add: interval %s, store answered %r" % ("valid" if valid else "start > end", r)
+    return None
+
+
+def mark_adapter_case(c):
+    """recompute the marks of a stored case (corpus, replay)"""
+    sim = ASim(c["tstores"], c["stores"], c["atoms"])
+    for o in c["ops"]:
+        for k in ("ghost", "strict", "multi"):
+            o.pop(k, None)
+        sim.apply(o)
+    return c
+
+
+def classify_adapter(ck, cases, outs, label):
+    """Judge the adapter cases with Run.C06.judge_a (Coq set machine over the derived views)."""
+    terms, idxs = [], []
+    for i, (c, o) in enumerate(zip(cases, outs)):
+        if "out" not in o:
+            ck.violation({"property": "C06", "kind": "implementation error/panic on a legal history (adapter configuration)",
+                          "adapter_case": True, "case": a_go_payload(c), "impl": o})
+            continue
+        bad = a_results_wellformed(c, o["out"])
+        if bad:
+            ck.violation({"property": "C06", "kind": "implementation output outside the domain (adapter configuration)",
+                          "adapter_case": True, "case": a_go_payload(c), "impl": o["out"]["res"],
+                          "op_index": bad[0], "why": bad[1]})
+            continue
+        terms.append(a_cq_case(c, o["out"]["res"]))
+        idxs.append(i)
+    verdicts = ck.run_coq("C06", "judge_a", terms, shard=max(20, len(terms) // 16 + 1), tag=label)
+    dis = 0
+    for i, v in zip(idxs, verdicts):
+        if v == 0:
+            continue
+        dis += 1
+        if len(ck.violations) >= 5:
+            continue
+        c, o = cases[i], outs[i]["out"]
+        rep = {"property": "C06", "adapter_case": True, "case": a_go_payload(c), "config": c.get("config"),
+               "impl_outputs": o["res"], "judge_a": v,
+               "marks": [{k: x[k] for k in A_MARKS if k in x} for x in c["ops"]]}
+        if v == 9999:
+            rep["kind"] = "malformed adapter case (generator error)"
+            rep["no_longer_checks"] = "Run.C06.wellformed_a"
+            ck.violation(rep, "no-failing-input-found")
+            continue
+        k = v - 1000
+        rep["op_index_1based"] = k
+        rep["op"] = c["ops"][k - 1]
+        rep["impl_result"] = o["res"][k - 1]
+        try:
+            rep["set_machine_answers"] = ck.coq_show("C06", "trace_a " + a_cq_case(c, o["res"]))[-4000:]
+        except Exception as e:
+            rep["set_machine_answers"] = "unavailable: %s" % e
+        rep["kind"] = ("temporal adapter configuration differs from the set of ground atoms (view derived from the "
+                       "(atom, interval) pairs; Coq set machine verdict Run.C06.judge_a)")
+        ck.violation(rep)
+    return dis
+
+
+def adapter_exhaustive_cases(max_len):
+    """Every history of <= max_len writes - direct Add of p(/a) or p(/b) with one of 5 intervals (two overlapping
+    ones around the pinned instant 10, a point at 10, one that misses it, eternal) or Add through the unpinned
+    adapter - on one temporal store seen by an unpinned adapter, an adapter pinned at 10 and merged([pinned], simple),
+    each followed by every membership test and every pattern on all three, predicates and count."""
+    consts = [name("/a"), name("/b")]
+    atoms = [{"sym": 0, "args": [0]}, {"sym": 0, "args": [1]}]
+    tstores = [{"k": "tstore"}]
+    stores = [{"k": "tadapter", "ts": 0, "at": None}, {"k": "tadapter", "ts": 0, "at": 10}, {"k": "simple"},
+              {"k": "merged", "reads": [1], "w": 2}]
+    ivs = [(0, 10), (5, 15), (10, 10), (11, 20), (None, None)]
+    steps = [{"op": "tadd", "ts": 0, "a": a, "lo": lo, "hi": hi} for a in range(2) for lo, hi in ivs]
+    steps += [{"s": 0, "op": "add", "a": a} for a in range(2)]
+    tail = []
+    for s in (0, 1, 3):
+        tail += [{"s": s, "op": "contains", "a": a} for a in range(2)]
+        tail += [{"s": s, "op": "get", "sym": 0, "args": [x]} for x in (None, 0, 1)]
+        tail += [{"s": s, "op": "preds"}, {"s": s, "op": "count"}]
+    for n in range(1, max_len + 1):
+        for combo in itertools.product(steps, repeat=n):
+            sim = ASim(tstores, stores, atoms)
+            ops = []
+            for o in [dict(x) for x in combo] + [dict(x) for x in tail]:
+                if not sim.try_apply(o):
+                    break
+                ops.append(o)
+            else:
+                yield {"consts": consts, "atoms": atoms, "tstores": tstores, "stores": stores, "ops": ops,
+                       "config": "adapter-exhaustive", "main": 1}
+
+
+def adapter_coverage(cases, outs):
+    by_layout, nops, ivcls, multi, unjudged = {}, {}, {}, {"pinned": 0, "unpinned": 0}, {"add": 0, "count": 0}
+    pinned_obs = unpinned_obs = wrapped_obs = ghosts = 0
+    max_iv = 0
+    witness = None
+    for c, o in zip(cases, outs):
+        by_layout[c["config"]] = by_layout.get(c["config"], 0) + 1
+        res = o.get("out", {}).get("res", [])
+        per_atom = {}
+        for k, op in enumerate(c["ops"]):
+            nops[op["op"]] = nops.get(op["op"], 0) + 1
+            if op["op"] == "tadd":
+                ivcls[op.get("cls", "given")] = ivcls.get(op.get("cls", "given"), 0) + 1
+                per_atom[(op["ts"], op["a"])] = per_atom.get((op["ts"], op["a"]), 0) + 1
+                continue
+            if op.get("multi"):
+                multi[op["multi"]] += 1
+            if op["op"] in ("add", "count") and op.get("strict") is False:
+                unjudged[op["op"]] += 1
+                if op["op"] == "add" and witness is None and k < len(res):
+                    witness = {"stores": c["stores"], "tstores": c["tstores"],
+                               "ops_so_far": [{x: y for x, y in q.items() if x not in A_MARKS} for q in c["ops"][:k + 1]],
+                               "impl_result_of_last_add": res[k]}
+            if op["op"] == "preds" and op.get("ghost"):
+                ghosts += 1
+            if op["op"] in ("contains", "get"):
+                d = c["stores"][op["s"]]
+                if d["k"] == "tadapter":
+                    if d.get("at") is None:
+                        unpinned_obs += 1
+                    else:
+                        pinned_obs += 1
+                else:
+                    wrapped_obs += 1
+        if per_atom:
+            max_iv = max(max_iv, max(per_atom.values()))
+    return {"count": len(cases), "judge": "Coq Run.C06.judge_a (set machine over the views derived from the (atom, interval) pairs)",
+            "layouts": by_layout, "ops": nops, "interval_classes": ivcls,
+            "contains_or_get_on_pinned_adapter": pinned_obs, "contains_or_get_on_unpinned_adapter": unpinned_obs,
+            "contains_or_get_through_wrapper_or_other_slot": wrapped_obs,
+            "queries_matching_an_atom_with_2plus_intervals_in_view": multi,
+            "max_direct_intervals_per_atom": max_iv, "listings_judged_as_superset": ghosts,
+            "results_not_judged": unjudged, "unjudged_add_witness": witness,
+            "samples": [a_go_payload(c)["ops"][:8] for c in cases[:2]]}
+
+
 # --------------------------------------------------------------------- probes
 def probe_cases():
     zero, nil = num(0), lst()
@@ -567,10 +1085,16 @@ def classify(ck, cases, outs, verdicts_for, label):
     return dis
 
 
-def load_corpus():
+def load_corpus(adapter=False):
     cases = []
     for path in sorted(glob.glob(os.path.join(os.path.dirname(__file__), "..", "corpus", "C06", "*.json"))):
         c = json.load(open(path))
+        if ("tstores" in c) != adapter:
+            continue
+        if adapter:
+            c.setdefault("config", "adapter-corpus")
+            cases.append(mark_adapter_case(c))
+            continue
         c.setdefault("config", "corpus")
         sim = Sim(c["stores"], c["atoms"])
         for o in c["ops"]:
@@ -589,6 +1113,12 @@ def run(ck):
     raw = []
     for cfg in plan:
         raw.append(gen_universe(rng, collide=(cfg == "array-collisions" or rng.random() < 0.5)))
+    # adapter configurations: their universes come after the others, so the main stream of a seed is unchanged
+    nadapt = ck.n(96, 720)
+    aplan = [A_LAYOUTS[i % len(A_LAYOUTS)] for i in range(nadapt)]
+    arng = random.Random("C06-adapter/%d" % ck.seed)      # own stream, seeded by VERIF_SEED like ck.rng
+    for _ in aplan:
+        raw.append(gen_universe(arng, collide=arng.random() < 0.4, natoms=arng.randint(3, 8)))
     hashes = prepare(ck, raw)
     cases = load_corpus()
     ncorpus = len(cases)
@@ -622,10 +1152,26 @@ def run(ck):
         nex = len(ex)
         cases += ex
         exhaustive = True
-    ck.log("cases: corpus %d, random %d, exhaustive %d" % (ncorpus, nrandom, nex))
+    # ---- adapter configurations (corpus first)
+    acases = load_corpus(adapter=True)
+    nacorpus = len(acases)
+    for layout, (consts, atoms), h in zip(aplan, raw[len(plan):], hashes[len(plan):]):
+        keep = filter_collisions(arng, atoms, h["ahash"])     # the temporal store is keyed by Atom.Hash() (F8)
+        dropped += len(atoms) - len(keep)
+        acases.append(gen_adapter_history(arng, layout, consts, [atoms[i] for i in keep],
+                                          (not ck.quick) or arng.random() < 0.3))
+    naex = 0
+    if not ck.quick:
+        aex = list(adapter_exhaustive_cases(3))
+        naex = len(aex)
+        acases += aex
+    ck.log("cases: corpus %d, random %d, exhaustive %d; adapter configurations: corpus %d, random %d, exhaustive %d"
+           % (ncorpus, nrandom, nex, nacorpus, nadapt, naex))
     outs = ck.run_go("c06", [go_payload(c) for c in cases])
+    aouts = ck.run_go("c06", [a_go_payload(c) for c in acases])
     ck.log("go done")
-    dis = classify(ck, cases, outs, None, "cases")
+    dis = classify_adapter(ck, acases, aouts, "adapter")
+    dis += classify(ck, cases, outs, None, "cases")
     ck.log("coq done")
     pr = probes(ck)
     # ---- coverage
@@ -650,14 +1196,23 @@ def run(ck):
                 add_res["%s=%s" % (op["op"], r)] = add_res.get("%s=%s" % (op["op"], r), 0) + 1
     distinct = len(set(json.dumps([c["stores"], c["ops"], c["atoms"]], sort_keys=True) for c in cases
                        if sum(1 for o in c["ops"] if o["op"] in ("add", "remove", "merge")) >= 2))
-    cov = {"evaluations": len(cases), "distinct_nontrivial": distinct,
-           "rule": "operation histories on real factstore stores (corpus %d, random %d, exhaustive block %d); "
-                   "non-trivial = at least two writes; distinct by stores+atoms+op list" % (ncorpus, nrandom, nex),
+    distinct += len(set(json.dumps([c["stores"], c["tstores"], a_go_payload(c)["ops"], c["atoms"]], sort_keys=True)
+                        for c in acases if sum(1 for o in c["ops"] if o["op"] in ("add", "tadd", "remove", "merge")) >= 2))
+    cov = {"evaluations": len(cases) + len(acases), "distinct_nontrivial": distinct,
+           "rule": "operation histories on real factstore stores (corpus %d, random %d, exhaustive block %d; adapter "
+                   "configurations over directly written temporal stores: corpus %d, random %d, exhaustive block %d); "
+                   "non-trivial = at least two writes; distinct by stores+atoms+op list"
+                   % (ncorpus, nrandom, nex, nacorpus, nadapt, naex),
            "exhaustive": exhaustive,
            "exhaustive_scope": ("every add/remove history of length <= 4 over the universe {p(/a,/b), p(/b,/b), q()} on the 4 base "
                                 "kinds and the temporal adapter, and of length <= 3 on 7 wrapper layouts (tee and merged over "
                                 "simple/indexed/array with one base fact, concurrent), each followed by all 3 membership tests, all 9 patterns, predicates and count; "
-                                "histories outside the wrappers' documented domain are skipped") if exhaustive else "",
+                                "histories outside the wrappers' documented domain are skipped. Adapter block: every history of <= 3 "
+                                "writes (direct TemporalStore.Add of p(/a) or p(/b) with [0,10], [5,15], [10,10], [11,20] or the eternal "
+                                "interval, or Add through the unpinned adapter) on one temporal store, observed through the unpinned "
+                                "adapter, the adapter pinned at 10 and merged([pinned adapter], simple): 2 membership tests, 3 patterns, "
+                                "predicates, count on each") if exhaustive else "",
+           "adapter_cases": adapter_coverage(acases, aouts),
            "configurations": by_cfg, "store_kinds": kinds, "ops": nops, "atom_arities": arities,
            "constant_kinds": ckinds, "write_results": add_res,
            "cases_with_hash_equal_atoms": coll_cases, "atoms_dropped_for_hash_equality": dropped,
@@ -671,13 +1226,32 @@ def run(ck):
         "wrappers: components stay disjoint, Remove through a wrapper only for atoms of its write store (documented), "
         "Merge into a wrapper only of atoms its read-only part lacks (finding N7)",
         "ListPredicates of indexed/multi/array stores after a predicate was emptied is judged as a superset (finding N8)",
-        "the temporal adapter is used without a query time over a fresh TemporalStore and modelled as a hash-keyed map without Remove"])
+        "main stream: the temporal adapter is used without a query time over a fresh TemporalStore and modelled as a hash-keyed map without Remove",
+        "adapter configurations (coverage.adapter_cases): the adapter, unpinned or pinned at an instant, over a TemporalStore / "
+        "TeeingTemporalStore that is also written directly with (atom, interval) pairs; judged by the Coq set machine only "
+        "(Run.C06.judge_a: view = atoms with an interval / with an interval containing the instant); no Remove on the adapter; "
+        "the boolean of Adapter.Add is judged only when the atom is outside the view or already eternal in the written store "
+        "(it reports the novelty of the eternal interval), the count only while every atom has one interval and all are in "
+        "view (it counts pairs), the listing as a superset when a listed predicate has no atom in view; "
+        "no Merge between views of one temporal store"])
 
 
 def replay(ck, path):
     ck.build_harness()
     rep = json.load(open(path))
     case = rep["case"]
+    if rep.get("adapter_case") or "tstores" in case:
+        mark_adapter_case(case)
+        out = ck.run_go("c06", [a_go_payload(case)])[0]
+        if "out" not in out or a_results_wellformed(case, out["out"]):
+            print("VIOLATION property=C06 replay=%s" % path)
+            return 1
+        v = ck.run_coq("C06", "judge_a", [a_cq_case(case, out["out"]["res"])])[0]
+        print("replay: judge_a = %d" % v)
+        if v != 0:
+            print("VIOLATION property=C06 replay=%s" % path)
+            return 1
+        return 0
     marks = rep.get("ghost_marks") or []
     for o, g in zip(case["ops"], marks):
         if g is not None:
